@@ -1825,3 +1825,152 @@ func KnownReplaceWitness(g *hc.Gen, o *hc.Out, root string) {
 	r.Exec(st, 0)
 	o.Count("corpus:F41")
 }
+
+// ---------- fixed corpus of stream c08: cancellation at every ctx.Err() call of two-target statements ----------
+
+type fixedTab struct {
+	name string
+	file bool
+	cols []string
+	rows [][]int
+}
+
+func newFixedRunner(g *hc.Gen, o *hc.Out, root, tag string, tabs []fixedTab) *Runner {
+	r := &Runner{G: g, O: o, CPU: 1, OnlyFailureLaws: true}
+	r.Dir = filepath.Join(root, tag)
+	r.TwinDir = filepath.Join(root, tag+"-twin")
+	_ = os.MkdirAll(r.Dir, 0o755)
+	_ = os.MkdirAll(r.TwinDir, 0o755)
+	for _, ft := range tabs {
+		t := &Tab{Name: ft.name, File: ft.file, Cols: append([]string{}, ft.cols...), Kind: map[string]int{}, NextID: len(ft.rows)}
+		for _, c := range ft.cols {
+			t.Kind[c] = KInt
+		}
+		r.Tabs = append(r.Tabs, t)
+		if ft.file {
+			var sb strings.Builder
+			sb.WriteString(strings.Join(ft.cols, ",") + "\n")
+			for _, row := range ft.rows {
+				cs := make([]string, len(row))
+				for j, v := range row {
+					cs[j] = strconv.Itoa(v)
+				}
+				sb.WriteString(strings.Join(cs, ",") + "\n")
+			}
+			_ = os.WriteFile(filepath.Join(r.Dir, ft.name+".csv"), []byte(sb.String()), 0o644)
+			_ = os.WriteFile(filepath.Join(r.TwinDir, ft.name+".csv"), []byte(sb.String()), 0o644)
+		}
+	}
+	mk := func(dir string) *hc.Proc {
+		pr := hc.NewProc(dir)
+		pr.SetCPU(1)
+		for _, ft := range tabs {
+			if ft.file {
+				continue
+			}
+			var sb strings.Builder
+			fmt.Fprintf(&sb, "DECLARE %s VIEW (%s);", ft.name, strings.Join(ft.cols, ", "))
+			if len(ft.rows) > 0 {
+				fmt.Fprintf(&sb, "INSERT INTO %s VALUES ", ft.name)
+				for i, row := range ft.rows {
+					if i > 0 {
+						sb.WriteString(", ")
+					}
+					cs := make([]string, len(row))
+					for j, v := range row {
+						cs[j] = strconv.Itoa(v)
+					}
+					sb.WriteString("(" + strings.Join(cs, ", ") + ")")
+				}
+				sb.WriteString(";")
+			}
+			sb.WriteString("COMMIT;")
+			if _, err := pr.Exec(sb.String()); err != nil {
+				o.Law("setup_failed", err.Error())
+			}
+		}
+		return pr
+	}
+	r.Pr = mk(r.Dir)
+	r.Twin = mk(r.TwinDir)
+	o.Case("c05.reset", "ok")
+	for _, t := range r.Tabs {
+		r.SendTable(t)
+	}
+	return r
+}
+
+// twoTargetUpdate: UPDATE a, b SET a.ca = (a.ca + 1), b.cb = (b.cb + 1) FROM a JOIN b ON (a.id = b.id) WHERE (a.id < 2)
+func twoTargetUpdate(a, ca, b, cb string) *Stmt {
+	ea := Bin("+", "+", Col(a, ca, true), Int(1))
+	eb := Bin("+", "+", Col(b, cb, true), Int(1))
+	on := Bin("=", "eq", Col(a, "id", true), Col(b, "id", true))
+	wh := Bin("<", "lt", Col(a, "id", true), Int(2))
+	cond := Bin("AND", "and", on, wh)
+	st := &Stmt{Kind: "updatem", Targets: []string{a, b}}
+	st.SQL = fmt.Sprintf("UPDATE %s, %s SET %s.%s = %s, %s.%s = %s FROM %s JOIN %s ON %s WHERE %s", a, b, a, ca, ea.SQL, b, cb, eb.SQL, a, b, on.SQL, wh.SQL)
+	st.Op = fmt.Sprintf("updatem 2 %s %s 2 %s %s 2 %s %s %s %s %s %s %s", a, b, a, b, a, ca, ea.Tok, b, cb, eb.Tok, cond.Tok)
+	return st
+}
+
+// twoTargetDelete: DELETE a, b FROM a, b WHERE ((a.id = b.id) AND (a.id < 1))
+func twoTargetDelete(a, b string) *Stmt {
+	cond := Bin("AND", "and", Bin("=", "eq", Col(a, "id", true), Col(b, "id", true)), Bin("<", "lt", Col(a, "id", true), Int(1)))
+	st := &Stmt{Kind: "deletem", Targets: []string{a, b}}
+	st.SQL = fmt.Sprintf("DELETE %s, %s FROM %s, %s WHERE %s", a, b, a, b, cond.SQL)
+	st.Op = fmt.Sprintf("deletem 2 %s %s 2 %s %s %s", a, b, a, b, cond.Tok)
+	return st
+}
+
+// ScanCancel re-runs st with the context failing from the 1st, 2nd, … ctx.Err() call on, until the statement
+// completes; after every cancelled attempt Exec checks that no table and no uncommitted mark changed.
+// Returns (number of cancelled attempts, completed, a law failed).
+func (r *Runner) ScanCancel(st *Stmt, maxAt int64) (int, bool, bool) {
+	for at := int64(1); at <= maxAt; at++ {
+		out := r.Exec(st, at)
+		r.O.Count("fault:cancel_scan")
+		if out.Err == nil {
+			r.TwinExec(st)
+			r.O.Count("cancel_scan_completed:" + st.Kind)
+			return int(at - 1), true, false
+		}
+		r.O.NonTrivial(fmt.Sprintf("scan:%s:%s:%d:E%d", st.Kind, strings.Join(st.Targets, "+"), at, ErrNum(out.Err)))
+		if len(out.Failed) > 0 {
+			return int(at), false, true
+		}
+	}
+	r.O.Law("cancel_scan_did_not_complete", map[string]interface{}{"sql": st.SQL, "max_at": maxAt})
+	return int(maxAt), false, false
+}
+
+// CancelCorpus runs first on every c08 run, whatever the seed: two-target UPDATE and DELETE over small
+// file-backed, temporary and mixed table pairs at @@CPU 1, cancelled at EVERY ctx.Err() call index until the
+// statement completes; tables + marks are compared around every attempt, and after each completed statement
+// both runs COMMIT and the files are compared with the control run's.
+func CancelCorpus(g *hc.Gen, o *hc.Out, root string) {
+	rows := [][]int{{0, 5}, {1, 6}, {2, 7}}
+	r := newFixedRunner(g, o, root, "corpus-cancel", []fixedTab{
+		{"f1", true, []string{"id", "a"}, rows}, {"f2", true, []string{"id", "e"}, rows},
+		{"m1", false, []string{"id", "p"}, rows}, {"m2", false, []string{"id", "q"}, rows},
+	})
+	defer r.Close()
+	stmts := []*Stmt{
+		twoTargetUpdate("f1", "a", "f2", "e"),
+		twoTargetUpdate("m1", "p", "m2", "q"),
+		twoTargetUpdate("f2", "e", "m1", "p"),
+		twoTargetDelete("f1", "f2"),
+		twoTargetDelete("m1", "m2"),
+		twoTargetDelete("m2", "f1"),
+		twoTargetUpdate("f1", "a", "f2", "e"), // once more, now on tables already loaded and changed in this transaction
+		twoTargetDelete("f2", "m1"),
+	}
+	for _, st := range stmts {
+		n, done, failed := r.ScanCancel(st, 5000)
+		o.Count(fmt.Sprintf("corpus_cancel_attempts~%d", n/10*10))
+		if failed || !done {
+			return // one defect, one report
+		}
+		r.CompareTwin("cancel corpus: " + st.SQL)
+		r.Commit()
+	}
+}
